@@ -685,7 +685,8 @@ Section Safety.
     let* ot := seek_record_g fx r typ_log (log_key_of name idx) in drain_opt inflate r ot.
 
   Definition refs_for_g (fx : bool) (r : reader) (oid : bytes) : res (list record) :=
-    if o_present (rd_obj r) then
+    if negb (o_present (rd_ref r)) then Ok []
+    else if o_present (rd_obj r) then
       if Nat.ltb (length oid) (rd_idlen r) then Ok []
       else
         let want := firstn (rd_idlen r) oid in
@@ -871,6 +872,7 @@ Section Safety.
     rdf r -> idx_ok fx r typ_obj -> good af (refs_for_g fx r oid).
   Proof.
     intros fx r oid HF Hx. unfold refs_for_g.
+    destruct (negb (o_present (rd_ref r))); [exact I|].
     destruct (o_present (rd_obj r)); [|now apply refs_for_linear_good].
     destruct (Nat.ltb (length oid) (rd_idlen r)); [exact I|]. cbv zeta.
     apply good_bind; [now apply rd_seek_g_good|].
